@@ -298,6 +298,18 @@ def run_check(prop, tier="quick", seed=0, replay=None):
                                             f"`{(res['lean'][k] if k < len(res['lean']) else '?')[:80]}`)", stream=st.name, case_ops=ops[s0:k + 1],
                                             go=res["go"][s0:k + 1]))
                         break
+                # ... or that brought the whole process down (a fatal error of the runtime, a panic on a goroutine nobody
+                # recovers): the first operation of the stream that has no answer
+                if res["rc_go"] != 0:
+                    for k, gl in enumerate(res["go"]):
+                        if gl == "<missing>" and k < len(ops) and not ops[k].startswith("#"):
+                            s0, e0 = case_of(ops, k)
+                            tail = [x for x in res["err_go"].strip().split("\n") if x.strip()]
+                            why = next((x for x in tail if x.startswith(("fatal error:", "panic:"))), tail[-1] if tail else "?")
+                            vs.append(Violation(f"the implementation brought the process down while executing `{ops[k][:160]}` (exit status {res['rc_go']}: "
+                                                f"{why[:160]}; the model answers `{(res['lean'][k] if k < len(res['lean']) else '?')[:80]}`)",
+                                                stream=st.name, case_ops=ops[s0:k + 1], go=res["go"][s0:k + 1]))
+                            break
                 nontrivial |= prop.nontrivial(st.name, ops, res["go"])
             except Exception as e:
                 vs = []
